@@ -460,6 +460,89 @@ def first_use_case(data, ev, d, fails, chooser=None, tag=None):
         ev.sample({"scenario": "first-use", "templates": T, "threads": nthreads, "preemptions": sch.preemptions, "solo": solo}, "first-use")
 
 
+# ---- bounded lookup used by concurrent renders (relative includes: the URI cache is an LRU too) -----------
+def bounded_render_case(chooser, d, ev, fails, tag):
+    import mako.lookup
+    import mako.runtime
+    import mako.util
+    from mako.lookup import TemplateLookup
+
+    root = os.path.join(d, "bro%d" % next(_k))
+    T = {"/s/a.html": 'A(<%include file="p1.html"/>|<%include file="p2.html"/>|${x})',
+         "/s/b.html": 'B(<%include file="p3.html"/>|<%include file="p4.html"/>|${x})',
+         "/s/c.html": 'C(<%include file="p5.html"/>|<%include file="p6.html"/>|${x})'}
+    for i in range(1, 7):
+        T["/s/p%d.html" % i] = "p%d:${x}" % i
+    for u, src in T.items():
+        p = os.path.join(root, u.lstrip("/"))
+        os.makedirs(os.path.dirname(p), exist_ok=True)
+        with open(p, "w") as fh:
+            fh.write(src)
+
+    sref = [None]
+
+    class ThreadingProxy:
+        @staticmethod
+        def Lock():
+            return S.CoLock(sref)  # the lookup's lock must not block an OS thread while the scheduler owns the schedule
+
+        def __getattr__(self, k_):
+            return getattr(threading, k_)
+
+    def fresh():
+        with mock.patch.object(mako.lookup, "threading", ThreadingProxy()):
+            return TemplateLookup(directories=[root], collection_size=2, filesystem_checks=False)
+
+    # thread 0 resolves the same relative URIs twice (second time from the URI cache), thread 1 fills that cache with others
+    plan = [["/s/a.html", "/s/a.html"], ["/s/b.html", "/s/c.html"]]
+    solo = [[fresh().get_template(u).render_unicode(x=i) for u in us] for i, us in enumerate(plan)]
+    lk = fresh()
+    files = {mako.runtime.__file__, mako.lookup.__file__, mako.util.__file__}
+    sch = S.Scheduler(chooser, trace=lambda fn: fn in files, max_steps=400000)
+    sref[0] = sch
+
+    def worker(i):
+        def run():
+            out = []
+            for u in plan[i]:
+                try:
+                    out.append(lk.get_template(u).render_unicode(x=i))
+                except Exception as e:  # noqa: BLE001 - the type is the observation
+                    out.append("%s: %s" % (type(e).__name__, str(e)[:80]))
+            return out
+        return run
+
+    case = {"part": "bounded-render", "sweep": tag}
+    try:
+        res, errs = sch.run([worker(0), worker(1)])
+    except S.Deadlock as e:
+        fails.setdefault("bounded-render-deadlock", Failure(case, "deadlock: %s" % e, "bounded-render-deadlock"))
+        return len(sch.choices)
+    for i in (0, 1):
+        if res.get(i) != solo[i]:
+            f = Failure(case, "thread %d rendered %r through a bounded lookup shared with another rendering thread, %r alone (%d preemptions)"
+                        % (i, res.get(i), solo[i], sch.preemptions), "bounded-render-differs-from-solo")
+            fails.setdefault(f.key, f)
+    ev.case(key=["bounded-render", tag], nontrivial=sch.preemptions >= 1, labels=("bounded-render-sweep",))
+    return len(sch.choices)
+
+
+def shard_bounded_render_sweep(task):
+    first, lo, hi = task
+    core.setup_repo()
+    ev = core.Evidence()
+    fails = {}
+    with core.TempDir() as d:
+        k = lo
+        while k < hi:
+            ch = S.OnePreemptionChooser(k, first)
+            n = bounded_render_case(ch, d, ev, fails, [first, k])
+            if ch.exhausted or k > n + 2:
+                break
+            k += 1
+    return ev, list(fails.values())
+
+
 # ---- shards --------------------------------------------------------------------
 KINDS = ["first-load-same", "different-uris", "modify-race", "failing-compile", "bounded", "bounded-vanish"]
 
@@ -522,12 +605,13 @@ def shard_lookup_sweep(task):
     with core.TempDir() as d:
         k = 0
         while k < 1200:
-            sch, detail, key = execute(case, S.OnePreemptionChooser(k, first), d, fine=True)
+            ch = S.OnePreemptionChooser(k, first)
+            sch, detail, key = execute(case, ch, d, fine=True)
             if detail:
                 fails.setdefault(key, make_failure(case, sch, detail, key, True))
             ev.case(key=[kind, threads, variant, "sweep", first, k], nontrivial=sch.preemptions >= 1,
                     labels=("fine-sweep:" + kind,))
-            if k > len(sch.choices) + 2:
+            if ch.exhausted or k > len(sch.choices) + 2:
                 break  # thread `first` finished before the preemption point
             k += 1
     return ev, list(fails.values())
@@ -564,8 +648,9 @@ def shard_first_use_sweep(task):
     with core.TempDir() as d:
         k = lo
         while k < hi:
-            first_use_case(bytes([0]) + bytes(8), ev, d, fails, chooser=S.OnePreemptionChooser(k, first), tag=[first, k])
-            if k > getattr(first_use_case, "last_decisions", 0) + 2:
+            ch = S.OnePreemptionChooser(k, first)
+            first_use_case(bytes([0]) + bytes(8), ev, d, fails, chooser=ch, tag=[first, k])
+            if ch.exhausted or k > getattr(first_use_case, "last_decisions", 0) + 2:
                 break  # thread `first` finished before the preemption point: nothing new beyond
             k += stride
     return ev, list(fails.values())
@@ -573,13 +658,16 @@ def shard_first_use_sweep(task):
 
 def run(ctx):
     tasks = []
-    step = 200
-    ctx.pmap(shard_first_use_sweep, [(first, lo, lo + step, 1) for first in (0, 1) for lo in range(0, 2400, step)])
+    step = 100
+    ctx.pmap(shard_first_use_sweep, [(first, lo, lo + step, 1 if (first == 0 or not ctx.quick) else 2) for first in (0, 1) for lo in range(0, 2400, step)])
     for kind in KINDS:
         for threads in (2, 3):
             for variant in range(ctx.pick(2, 6)):
-                tasks.append((kind, threads, variant, ctx.pick(1500, 20000)))
+                tasks.append((kind, threads, variant, ctx.pick(700, 20000)))
     ctx.pmap(shard_dfs, tasks)
+    # quick: thread 0 preempted during its SECOND render (decisions ~200..500), when the URI cache already holds its keys
+    ctx.pmap(shard_bounded_render_sweep, [(first, lo, lo + 20) for first in ctx.pick((0,), (0, 1))
+                                          for lo in (range(180, 520, 20) if ctx.quick else range(0, 1600, 20))])
     ctx.pmap(shard_lookup_sweep, [(kind, threads, variant, first) for kind in ("modify-race", "failing-compile", "bounded-vanish")
                                   for threads in (2, 3) for variant in range(6 if kind == "modify-race" else 2)
                                   for first in range(threads)])
@@ -597,6 +685,13 @@ def replay(case):
             fails = {}
             sw = case.get("sweep")
             first_use_case(bytes(case["data"]), ev, d, fails, chooser=S.OnePreemptionChooser(sw[1], sw[0]) if sw else None, tag=sw)
+            for f in fails.values():
+                return f
+            return None
+        if case.get("part") == "bounded-render":
+            ev = core.Evidence()
+            fails = {}
+            bounded_render_case(S.OnePreemptionChooser(case["sweep"][1], case["sweep"][0]), d, ev, fails, case["sweep"])
             for f in fails.values():
                 return f
             return None
